@@ -85,7 +85,7 @@ Record store := mkstore {
   mmem    : list path;    (* rotated metrics segments in the in-memory metadata *)
   dirs    : list path;    (* directories that exist below the host directory *)
   unrot   : list seg;     (* unrotated segments: searchable, on disk, in no metadata file *)
-  seg_tmp : bool;         (* segmeta.json.tmp exists *)
+  seg_tmp : option (list seg); (* lines of segmeta.json.tmp, if the file exists (left by an interrupted pass) *)
   mm_tmp  : bool;         (* metricmeta.json.tmp exists *)
   vtables : list (Z * N) }. (* lines of virtualtablenames[-org].txt: the index names of each org *)
 
@@ -113,7 +113,7 @@ Inductive eff :=
 | ERmEmpty (p : path)            (* IsDirEmpty(p) then RemoveAll(p): p disappears if it has no entry (rmdir) *)
 | EMemDel (p : path)             (* segmetadata.DeleteSegmentKey *)
 | EMMemDel (p : path)            (* segmetadata.DeleteMetricsSegmentKey *)
-| ESegTmp                        (* segmeta.json.tmp created and written *)
+| ESegTmp (trunc : bool) (l : list seg) (* segmeta.json.tmp opened (trunc: with O_TRUNC) and written: it now holds l *)
 | ESegSet (l : list seg)         (* rename(segmeta.json.tmp, segmeta.json) *)
 | ESegRemove                     (* os.RemoveAll(segmeta.json): nothing preserved *)
 | EMmTmp
@@ -135,8 +135,8 @@ Definition apply_eff (st : store) (e : eff) : store :=
                     (if dir_empty p (dirs st) then del_path p (dirs st) else dirs st) (unrot st) (seg_tmp st) (mm_tmp st) (vtables st)
   | EMemDel p => mkstore (segmeta st) (mmeta st) (del_path p (mem st)) (mmem st) (dirs st) (unrot st) (seg_tmp st) (mm_tmp st) (vtables st)
   | EMMemDel p => mkstore (segmeta st) (mmeta st) (mem st) (del_path p (mmem st)) (dirs st) (unrot st) (seg_tmp st) (mm_tmp st) (vtables st)
-  | ESegTmp => mkstore (segmeta st) (mmeta st) (mem st) (mmem st) (dirs st) (unrot st) true (mm_tmp st) (vtables st)
-  | ESegSet l => mkstore l (mmeta st) (mem st) (mmem st) (dirs st) (unrot st) false (mm_tmp st) (vtables st)
+  | ESegTmp _ l => mkstore (segmeta st) (mmeta st) (mem st) (mmem st) (dirs st) (unrot st) (Some l) (mm_tmp st) (vtables st)
+  | ESegSet l => mkstore l (mmeta st) (mem st) (mmem st) (dirs st) (unrot st) None (mm_tmp st) (vtables st)
   | ESegRemove => mkstore [] (mmeta st) (mem st) (mmem st) (dirs st) (unrot st) (seg_tmp st) (mm_tmp st) (vtables st)
   | EMmTmp => mkstore (segmeta st) (mmeta st) (mem st) (mmem st) (dirs st) (unrot st) (seg_tmp st) true (vtables st)
   | EMmSet l => mkstore (segmeta st) l (mem st) (mmem st) (dirs st) (unrot st) (seg_tmp st) false (vtables st)
@@ -169,7 +169,17 @@ Section Pass.
      RecursivelyDeleteEmptyParentDirectories(segbaseDir) does nothing for log segments:
      segbaseDir ends in '/', so path.Dir yields the directory that was just removed and
      IsDirEmpty fails on it. *)
-  Definition log_effs (hz : N) (org : Z) (st : store) : list eff :=
+  (* what segmeta.json.tmp holds after the preserved lines [keep] have been written into it:
+     opened with O_TRUNC (the code) a stale file left by an interrupted pass is emptied first;
+     opened without, the new lines overwrite the beginning of the stale file and its tail
+     survives (line granularity: lines of equal length) *)
+  Definition overlay (new old : list seg) : list seg := new ++ skipn (length new) old.
+
+  Definition tmp_written (trunc : bool) (keep : list seg) (st : store) : list seg :=
+    if trunc then keep
+    else overlay keep (match seg_tmp st with Some c => c | None => [] end).
+
+  Definition log_effs_gen (trunc : bool) (hz : N) (org : Z) (st : store) : list eff :=
     let sel := sel_log hz org st in
     match sel with
     | [] => []
@@ -178,9 +188,14 @@ Section Pass.
       ++ map (fun s => EMemDel (s_dir s)) (ord sel)
       ++ match keep_of sel (segmeta st) with
          | [] => [ESegRemove]
-         | keep => [ESegTmp; ESegSet keep]
+         | keep => [ESegTmp trunc (tmp_written trunc keep st); ESegSet (tmp_written trunc keep st)]
          end
     end.
+
+  (* removeSegmetas opens the temporary file with O_WRONLY|O_CREATE|O_TRUNC *)
+  Definition log_effs : N -> Z -> store -> list eff := log_effs_gen true.
+  (* the same pass if the temporary file were opened without O_TRUNC (refutation only) *)
+  Definition log_effs_notrunc : N -> Z -> store -> list eff := log_effs_gen false.
 
   (* the loop over metricSegmentsToDelete in DeleteMetricsSegmentData: an entry that is
      not in the in-memory metadata makes the function return before any file is touched *)
@@ -289,7 +304,14 @@ Section Pass.
     let me := met_effs hz org st1 in
     le ++ me ++ vt_effs_unfixed org (apply_effs me st1).
 
+  Definition pass_effs_notrunc (hz : N) (org : Z) (st : store) : list eff :=
+    let le := log_effs_notrunc hz org st in
+    let st1 := apply_effs le st in
+    let me := met_effs hz org st1 in
+    le ++ me ++ vt_effs org (apply_effs me st1).
+
   Definition run (hz : N) (org : Z) (st : store) : store := apply_effs (pass_effs hz org st) st.
+  Definition run_notrunc (hz : N) (org : Z) (st : store) : store := apply_effs (pass_effs_notrunc hz org st) st.
   Definition run_unfixed (hz : N) (org : Z) (st : store) : store := apply_effs (pass_effs_unfixed hz org st) st.
 
   (* the pass stopped after k primitive effects *)
@@ -352,3 +374,7 @@ Definition no_index_emptied (hz : N) (org : Z) (st : store) : bool :=
 
 Definition interrupt_guard (hz : N) (org : Z) (st : store) : bool :=
   no_metrics_selected hz org st && no_index_emptied hz org st.
+
+(* the same store with an arbitrary segmeta.json.tmp lying around *)
+Definition with_seg_tmp (st : store) (c : option (list seg)) : store :=
+  mkstore (segmeta st) (mmeta st) (mem st) (mmem st) (dirs st) (unrot st) c (mm_tmp st) (vtables st).
